@@ -1,0 +1,10 @@
+//go:build verif
+// +build verif
+
+package tindex
+
+// VerifNewSrc returns a new partition source id exactly as getOrCreateJournal obtains it (newSrc()).
+// Verification harness only (build tag verif).
+func VerifNewSrc() string {
+	return newSrc()
+}
